@@ -204,7 +204,9 @@ theorem exec_of_block (n : Nat) (hb : BlockFrame n) (hi : ItersSame n) : ExecFra
           · rename_i cell hc
             simp at h; obtain ⟨h1, _⟩ := h; subst h1
             exact (hb _ _ _ _ _ _ hr).trans (Frame.heapSet hc _ _ _)
-      · simp at h
+      · simp at h; obtain ⟨h1, _⟩ := h; subst h1
+        have f := hb _ _ _ _ _ _ hr
+        exact f
   | withS binds body =>
     simp only [exec, bind, Except.bind] at h
     split at h
@@ -229,7 +231,9 @@ theorem exec_of_block (n : Nat) (hb : BlockFrame n) (hi : ItersSame n) : ExecFra
         · simp at h; obtain ⟨h1, _⟩ := h; subst h1
           have f := hb _ _ _ _ _ _ hr
           exact f
-      · simp at h
+      · simp at h; obtain ⟨h1, _⟩ := h; subst h1
+        have f := hb _ _ _ _ _ _ hr
+        exact f
   | macroS name params defaults body uc =>
     simp only [exec, bind, Except.bind] at h
     split at h
